@@ -206,6 +206,10 @@ def resolve_loops(ob, gb, wd):
             continue
         fk, n = u.rsplit(":", 1)
         f, k = fk.split("#")
+        if f not in loops:   # public names may or may not carry the libcperciva_ prefix (header #defines)
+            alt = f[len("libcperciva_"):] if f.startswith("libcperciva_") else "libcperciva_" + f
+            if alt in loops:
+                f = alt
         ls = sorted(loops.get(f, []))
         if int(k) >= len(ls):
             return None, "loop %s not found (function has %d loops)" % (fk, len(ls))
@@ -405,6 +409,8 @@ def rewrite_calls(text, repl):
     every call `old(` that is not the definition (name at column 0) -> `new(`"""
     for rc_ in repl:
         old, new = rc_.split(":")
+        if old.startswith("libcperciva_"):
+            old = old[len("libcperciva_"):]   # sources use the unprefixed name (the header #defines the prefix)
         out = []
         for line in text.split("\n"):
             if re.match(r"^%s\(" % re.escape(old), line):
@@ -515,7 +521,7 @@ def run_obligation(pid, ob, hdir, kf_defs, slots):
     demo = ob.get("kf_demo")
     defs = [d for d in kf_defs if not (demo and d == "KF_" + demo)]
     want_witness = ob.get("witness", True)
-    n = len(backends)
+    n = len(backends) + (1 if want_witness else 0)
     for _ in range(n):
         slots.acquire()
     try:
@@ -525,14 +531,12 @@ def run_obligation(pid, ob, hdir, kf_defs, slots):
             rec["verdict"] = "build-error"
             rec["detail"] = err
             return rec
-        gbn = None
-        if any(b in ("kissat", "z3tactic") for b in backends):
-            gbn = os.path.join(wd, "h.nowitness.gb")
-            ok, err = build_goto(ob, wd, hdir, defs + ["NOWITNESS"], gbn)
-            if not ok:
-                rec["verdict"] = "build-error"
-                rec["detail"] = err
-                return rec
+        gbn = os.path.join(wd, "h.nowitness.gb")
+        ok, err = build_goto(ob, wd, hdir, defs + ["NOWITNESS"], gbn)
+        if not ok:
+            rec["verdict"] = "build-error"
+            rec["detail"] = err
+            return rec
         ob = dict(ob)
         us, err = resolve_loops(ob, gbw, wd)
         if us is None:
@@ -546,48 +550,36 @@ def run_obligation(pid, ob, hdir, kf_defs, slots):
         sh(["cbmc", gbw, "--function", ob["entry"], "--drop-unused-functions", "--list-goto-functions"], lf, 120)
         names = re.findall(r"^([A-Za-z_][A-Za-z0-9_]*) /\*", open(lf, errors="replace").read(), re.M)
         rf = repo_functions()
-        rec["repo_functions_encoded"] = sorted(n_ for n_ in set(names) if n_ in rf)
+        rec["repo_functions_encoded"] = sorted(n_ for n_ in set(names) if n_ in rf or n_.replace("libcperciva_", "") in rf)
 
+        # The property query runs on the NOWITNESS build (one UNSAT query per back end);
+        # the reachability witness is a separate SAT query on the witness build, in parallel.
         cancel = threading.Event()
         outcomes = []
         lock = threading.Lock()
 
         def work(b):
-            if b == "z3tactic":
+            if b == "witness":
+                o = run_witness_only(ob, gbw, wd, cancel)
+            elif b == "z3tactic":
                 o = run_z3tactic(ob, gbn, wd, cancel)
-            elif b == "kissat":
-                o = run_sat(ob, gbn, wd, b, cancel, False)
             else:
-                o = run_sat(ob, gbw, wd, b, cancel, want_witness)
+                o = run_sat(ob, gbn, wd, b, cancel, False)
             with lock:
                 outcomes.append(o)
-                # witness-capable definitive answers end the race; a "holds" from a
-                # no-witness back end needs the witness from a witness-capable one
                 if o.verdict in ("cex", "vacuous"):
                     cancel.set()
-                elif o.verdict == "holds" and (b not in ("kissat", "z3tactic") or not want_witness):
-                    cancel.set()
-                elif o.verdict == "holds":
-                    pass
+                else:
+                    have_w = (not want_witness) or any(x.backend == "witness" and x.verdict == "holds" for x in outcomes)
+                    have_p = any(x.backend != "witness" and x.verdict == "holds" for x in outcomes)
+                    if have_w and have_p:
+                        cancel.set()
             return o
 
-        ths = [threading.Thread(target=work, args=(b,)) for b in backends]
+        jobs_ = list(backends) + (["witness"] if want_witness else [])
+        ths = [threading.Thread(target=work, args=(b,)) for b in jobs_]
         for t in ths:
             t.start()
-        # if a no-witness back end proved the property, only the witness is still needed:
-        # run a witness-only query (cheap: SAT answer) and cancel the rest
-        witness_done = False
-        while any(t.is_alive() for t in ths):
-            time.sleep(0.1)
-            with lock:
-                nw = [o for o in outcomes if o.verdict == "holds" and o.backend in ("kissat", "z3tactic")]
-            if nw and want_witness and not witness_done and not cancel.is_set():
-                witness_done = True
-                wo = run_witness_only(ob, gbw, wd)
-                with lock:
-                    outcomes.append(wo)
-                if wo.verdict is not None:
-                    cancel.set()
         for t in ths:
             t.join()
         for o in outcomes:
@@ -597,8 +589,8 @@ def run_obligation(pid, ob, hdir, kf_defs, slots):
         # merge
         cex = [o for o in outcomes if o.verdict == "cex"]
         vac = [o for o in outcomes if o.verdict == "vacuous"]
-        holds_w = [o for o in outcomes if o.verdict == "holds" and o.backend not in ("kissat", "z3tactic", "witness")]
-        holds_nw = [o for o in outcomes if o.verdict == "holds" and o.backend in ("kissat", "z3tactic")]
+        holds_nw = [o for o in outcomes if o.verdict == "holds" and o.backend != "witness"]
+        holds_w = []
         wit_ok = [o for o in outcomes if o.backend == "witness" and o.verdict == "holds"]
         cexnm = [o for o in outcomes if o.verdict == "cex-nomodel"]
         if cex and (holds_w or holds_nw):
@@ -610,7 +602,7 @@ def run_obligation(pid, ob, hdir, kf_defs, slots):
             # re-run for a trace of the first failing property
             tr_out = os.path.join(wd, "out.trace.json")
             solver = o.backend if o.backend in ("cadical", "minisat") else "cadical"
-            cmd = cbmc_base(ob, gbw) + ["--json-ui", "--trace", "--property", o.failing[0]["property"]]
+            cmd = cbmc_base(ob, gbn) + ["--json-ui", "--trace", "--property", o.failing[0]["property"]]
             if solver == "cadical":
                 cmd += ["--sat-solver", "cadical"]
             sh(cmd, tr_out, max(300, ob.get("timeout", 120) * 2))
@@ -627,9 +619,9 @@ def run_obligation(pid, ob, hdir, kf_defs, slots):
             rec["native_replay"] = st
         elif vac:
             rec["verdict"] = "vacuous"
-        elif holds_w or (holds_nw and (wit_ok or not want_witness)):
+        elif holds_nw and (wit_ok or not want_witness):
             rec["verdict"] = "holds"
-            rec["answered_by"] = (holds_nw or holds_w)[0].backend
+            rec["answered_by"] = holds_nw[0].backend
         elif cexnm:
             rec["verdict"] = "inconclusive"
             rec["detail"] = "SMT back end says sat but no SAT back end produced a model in time"
@@ -645,7 +637,7 @@ def run_obligation(pid, ob, hdir, kf_defs, slots):
             shutil.rmtree(wd, ignore_errors=True)
 
 
-def run_witness_only(ob, gbw, wd):
+def run_witness_only(ob, gbw, wd, cancel=None):
     """reachability of REACHED() alone (a SAT answer, cheap even for kernels)"""
     o = Outcome("witness")
     out = os.path.join(wd, "out.witness.json")
@@ -662,11 +654,12 @@ def run_witness_only(ob, gbw, wd):
         o.verdict = "vacuous"
         o.detail = "no WITNESS property"
         return o
-    cmd = cbmc_base(ob, gbw) + ["--json-ui", "--sat-solver", "cadical"]
+    cmd = cbmc_base(ob, gbw) + ["--json-ui", "--sat-solver", "cadical", "--slice-formula"]
     for w in wid:
         cmd += ["--property", w]
-    p = Proc(cmd, out, max(120, ob.get("timeout", 120))).run()
+    p = Proc(cmd, out, max(120, ob.get("timeout", 120)), cancel).run()
     o.wall, o.rss_mb, o.queries = p.wall, p.rss_mb, 1
+    o.solver_s = solver_seconds(out)
     props, status, _ = parse_json_results(out)
     if props:
         w = [x for x in props if x["description"] == "WITNESS"]
@@ -690,6 +683,13 @@ def run_selftests(pid, spec, hdir):
         os.makedirs(wd)
         cpu_config(wd, st.get("cpu", []))
         ob = dict(defs=st.get("defs", []), model_inc=st.get("model_inc", []))
+        if st.get("script"):
+            r = sh(["python3", os.path.join(VERIF, st["script"])] + st.get("args", []), os.path.join(wd, "run.log"), 600, cwd=wd, limit=False)
+            res.append(dict(name=st["name"], ok=r.rc == 0, what=st.get("what", ""),
+                            detail=open(os.path.join(wd, "run.log"), errors="replace").read()[-600:].strip()))
+            if r.rc == 0:
+                shutil.rmtree(wd, ignore_errors=True)
+            continue
         exe = os.path.join(wd, "t")
         cmd = ["gcc", "-O1", "-g", "-w"] + st.get("cflags", []) + common_cflags(ob, wd, hdir) + \
               [os.path.join(hdir, s) if not s.startswith("/") else s for s in st["srcs"]] + \
